@@ -46,6 +46,21 @@ static inline void bx_vec_particle_push_back(bx_vec_particle *v, const struct pa
   v->data[v->size] = copy;
   v->size = v->size + 1;
 }
+/* used by callee stubs: k particles were appended by a callee; one of those push_backs may have reallocated.
+   Contents of appended particles stay nondeterministic (what a caller may know about them comes from the
+   callee's contract, not from here). */
+static inline void bx_vec_particle_grow(bx_vec_particle *v, unsigned long k)
+{
+  if (k == 0) return;
+  if (v->size + k > v->cap || nondet_bool()) {
+    struct particle *nd = (struct particle *)malloc(BX_CAP * sizeof(struct particle));
+    __CPROVER_assume(nd != 0);
+    if (v->data != 0) free(v->data);
+    v->data = nd;
+    v->cap = BX_CAP;
+  }
+  v->size = v->size + k;
+}
 #else
 static inline void bx_vec_particle_push_back(bx_vec_particle *v, const struct particle *p)
 {
